@@ -34,6 +34,13 @@ def get_annotation_typestr(field: Union[BaseField, Type, str]) -> str:
         storage_type = field
     elif field is None:
         storage_type = "None"
+    elif hasattr(field, "__origin__") or getattr(field, "__module__", None) in (
+        "typing",
+        "types",
+    ):
+        # typing constructs (Optional[int], List[str], Callable, int | None): their repr is the
+        # annotation, exactly like the List[...] / Dict[...] storage types of fields
+        storage_type = field
     else:
         raise TypeError("Unknown storage_type: %s" % type(field))
 
